@@ -81,7 +81,10 @@ def _decide(ex, cond, msg, extra):
     s.add(ex.solver.assertions())
     s.add(neg)
     names = [n for n, c, ty in ex.inputs]
-    st, who, model, dt = portfolio.solve(s.sexpr(), ex.env.get('hard_timeout', 120), names)
+    st, who, model, dt = portfolio.solve(s.sexpr(), ex.env.get('hard_timeout', 120), names,
+                                         crosscheck=bool(ex.env.get('crosscheck')))
+    if st == 'disagree':
+        raise BoundExceeded('solvers disagree on a property query (%s)' % who)
     ex.queries += 1
     ex.solver_s += dt
     ex.env.setdefault('covers', {})
